@@ -1,1 +1,813 @@
-//! C10: not implemented yet.
+//! C10 — Poll intervals stay within configured and requested bounds.
+//!
+//! Engine E-SEQ on the REAL `NtpSource` (rig shared with C09, see `c09::rig`).
+//!
+//! Part A (stub controller): for every (min <= max) over {0,4,6,10,17} and NTPv4 / NTPv5
+//! (plain; NTS in the thorough tier) a breadth-first search to fixpoint over histories of
+//!   T            timer fires (virtual time advanced by the requested timer)
+//!   N            normal answer (NTPv5: echoes the client's poll, as the real server does)
+//!   Q<i>         NTPv5 normal answer whose poll field requests {min-1, max, max+2, 126, 127}[i]
+//!   RATE         v4 kiss code RATE / v5 stratum 0 with poll own+1
+//!   RATEBIG      v5 stratum 0 with poll 126
+//!   D<j>         the clock filter (stub) now desires {min-1, min, mid, max, max+1, -128, 127}[j]
+//! Part B (real Kalman source controller obtained through the production
+//! `TimeSyncControllerWrapper::add_source`): for every (min <= initial <= max) over
+//! {0,4,6,10,17}: an initialisation prefix of 8 answered polls, then ALL words of length n over
+//! poll rounds {A steady, K small wobble, J offset jump, W long delay, U unanswered, R RATE,
+//! Q v5 request max+2}, with poll-interval hysteresis 1 (every measurement may move the
+//! desire) and, thorough, 2 and the default 16.
+//!
+//! Oracle (statement): every sent poll exponent p has min <= p <= max(max, largest interval a
+//! valid answer asked for so far); the SetTimer issued with the Send lies in
+//! [1.01, 1.05] * 2^p s; the real filter's desire always lies in [min, max].
+//! Environment assumption made explicit: sentence 1 presupposes sentence 3. When the STUB
+//! desires more than max (impossible for the real filter) the source passes it through; those
+//! polls are counted (`polls_excused_by_stub_desire`) and bounded by the stub's own desire
+//! instead. Desires below min are NOT excused: the source must (and does) clamp them.
+use std::collections::{BTreeMap, HashSet};
+use std::sync::atomic::{AtomicU64, Ordering};
+use std::sync::{Arc, Mutex};
+use std::time::Duration;
+
+use super::c09::rig::{self, Cfg, Kiss, Rig, Stub, StubShared, TimerOut, Ver, View};
+use super::common::{self, Ctx};
+use crate::algorithm::{
+    AlgorithmConfig, KalmanClockController, SourceController, TimeSyncController, TimeSyncControllerWrapper,
+};
+use crate::config::SynchronizationConfig;
+use crate::time_types::{NtpDuration, NtpTimestamp};
+use crate::{ClockId, NtpClock, NtpLeapIndicator};
+
+const GRID: [i8; 5] = [0, 4, 6, 10, 17];
+
+type Classes = Mutex<BTreeMap<String, u64>>;
+
+fn bump(classes: Option<&Classes>, k: &str, n: u64) {
+    if let Some(c) = classes {
+        *c.lock().unwrap().entry(k.to_string()).or_insert(0) += n;
+    }
+}
+
+// ---------------------------------------------------------------------- shared oracle
+
+/// `t` within [1.01, 1.05] * 2^p seconds (exact integer nanoseconds; 1 ppb slack on the
+/// upper edge because 1.05 is not a binary fraction). Exponents above 31 are not
+/// representable as a timer at all; for those only ">= 1.01 * 2^31 s" is demanded.
+fn timer_ok(p: i8, t: Duration) -> bool {
+    let e = p.clamp(0, 31) as u32;
+    let base: u128 = (1u128 << e) * 1_000_000_000;
+    let lo = base * 101 / 100;
+    let hi = base * 105 / 100;
+    let hi = hi + hi / 1_000_000_000 + 1;
+    let ns = t.as_nanos();
+    if p > 31 { ns >= lo } else { ns >= lo && ns <= hi }
+}
+
+struct Bounds {
+    /// largest poll exponent a valid answer asked for so far
+    requested: i16,
+    /// largest poll exponent that was only explained by an out-of-range (> max) desire of the
+    /// STUB controller; once such a poll was used, "never faster than it just did" (C09) may
+    /// legitimately keep the source there, so the excuse persists
+    excused: i16,
+}
+
+impl Bounds {
+    fn check_send(
+        &mut self,
+        cfg: &Cfg,
+        poll: i8,
+        timer: Duration,
+        stub_desire: Option<i8>,
+        ctx: Option<&Ctx>,
+        classes: Option<&Classes>,
+        trace: &dyn Fn() -> String,
+    ) {
+        bump(classes, "polls_sent", 1);
+        if poll == cfg.min {
+            bump(classes, "polls_at_min", 1);
+        }
+        if poll == cfg.max {
+            bump(classes, "polls_at_max", 1);
+        }
+        if poll > cfg.max {
+            bump(classes, "polls_above_max_by_request", 1);
+        }
+        if poll < cfg.min {
+            if let Some(c) = ctx {
+                c.violation(
+                    "C10:poll-below-min",
+                    format!("sent poll exponent {poll} < configured minimum {} (filter desire {stub_desire:?})", cfg.min),
+                    trace(),
+                );
+            }
+        }
+        let legit = (cfg.max as i16).max(self.requested);
+        if let Some(d) = stub_desire {
+            if (d as i16) > legit && poll as i16 > legit && poll as i16 <= d as i16 {
+                self.excused = self.excused.max(poll as i16);
+            }
+        }
+        let ub = legit.max(self.excused);
+        if poll as i16 > legit && poll as i16 <= ub {
+            bump(classes, "polls_excused_by_stub_desire", 1);
+        }
+        if poll as i16 > ub {
+            if let Some(c) = ctx {
+                c.violation(
+                    "C10:poll-above-max",
+                    format!(
+                        "sent poll exponent {poll} > max(configured maximum {}, largest server-requested {})",
+                        cfg.max,
+                        if self.requested == i16::MIN { "none".to_string() } else { self.requested.to_string() }
+                    ),
+                    trace(),
+                );
+            }
+        }
+        if poll > 31 {
+            bump(classes, "timers_beyond_representable", 1);
+        }
+        if !timer_ok(poll, timer) {
+            if let Some(c) = ctx {
+                c.violation(
+                    "C10:timer-out-of-range",
+                    format!(
+                        "next poll scheduled {} x 2^{poll} s after a poll with exponent {poll}",
+                        if timer.as_secs_f64() / ((1u64 << poll.clamp(0, 31)) as f64) < 1.01 { "less than 1.01" } else { "more than 1.05" }
+                    ),
+                    trace(),
+                );
+            }
+        }
+    }
+}
+
+// ---------------------------------------------------------------------- part A
+
+#[derive(Clone, Copy, PartialEq, Eq, Hash, Debug, PartialOrd, Ord)]
+enum Ev {
+    T,
+    N,
+    Q(u8),
+    Rate,
+    RateBig,
+    D(u8),
+}
+
+impl Ev {
+    fn code(self) -> String {
+        match self {
+            Ev::T => "T".into(),
+            Ev::N => "N".into(),
+            Ev::Q(i) => format!("Q{i}"),
+            Ev::Rate => "RATE".into(),
+            Ev::RateBig => "RATEBIG".into(),
+            Ev::D(j) => format!("D{j}"),
+        }
+    }
+    fn parse(s: &str) -> Option<Ev> {
+        Some(match s {
+            "T" => Ev::T,
+            "N" => Ev::N,
+            "RATE" => Ev::Rate,
+            "RATEBIG" => Ev::RateBig,
+            _ if s.starts_with('Q') => Ev::Q(s[1..].parse().ok()?),
+            _ if s.starts_with('D') => Ev::D(s[1..].parse().ok()?),
+            _ => return None,
+        })
+    }
+}
+
+fn request_values(cfg: &Cfg) -> Vec<i8> {
+    vec![cfg.min - 1, cfg.max, cfg.max + 2, 126, 127]
+}
+
+fn desire_values(cfg: &Cfg) -> Vec<i8> {
+    let mut v = vec![cfg.min - 1, cfg.min, ((cfg.min as i16 + cfg.max as i16) / 2) as i8, cfg.max, cfg.max + 1, -128, 127];
+    let mut seen = HashSet::new();
+    v.retain(|x| seen.insert(*x));
+    v
+}
+
+fn alphabet_a(cfg: &Cfg, quick: bool) -> Vec<Ev> {
+    // quick tier: the widest symbols (request 127, desires -128 / 127, RATEBIG) are left to
+    // the thorough tier; NTPv5 configurations wider than 6 steps additionally drop the
+    // request "max" and the desires "min" / "mid" (their ladders are long, the dropped
+    // symbols are covered by the narrow configurations)
+    let wide = quick && cfg.ver == Ver::V5 && cfg.max - cfg.min > 6;
+    let mut v = vec![Ev::T, Ev::N, Ev::Rate];
+    if cfg.ver == Ver::V5 {
+        for i in 0..5u8 {
+            let keep = if !quick { true } else if wide { i == 0 || i == 2 || i == 3 } else { i < 4 };
+            if keep {
+                v.push(Ev::Q(i));
+            }
+        }
+        if !quick {
+            v.push(Ev::RateBig);
+        }
+    }
+    let dv = desire_values(cfg);
+    for (j, d) in dv.iter().enumerate() {
+        let keep = if !quick {
+            true
+        } else if wide {
+            *d == cfg.min - 1 || *d == cfg.max || *d == cfg.max + 1
+        } else {
+            *d != -128 && *d != 127
+        };
+        if keep {
+            v.push(Ev::D(j as u8));
+        }
+    }
+    v
+}
+
+#[derive(Clone, Debug, PartialEq, Eq, Hash, PartialOrd, Ord)]
+struct KeyA {
+    view: View,
+    desire: i8,
+    requested: i16,
+    excused: i16,
+    pending: bool,
+    terminal: bool,
+}
+
+struct EndA {
+    key: KeyA,
+    applied: bool,
+    obs: String,
+}
+
+fn fmt_a(cfg: &Cfg, h: &[Ev]) -> String {
+    format!("A;{};{}", cfg.tag(), h.iter().map(|e| e.code()).collect::<Vec<_>>().join(","))
+}
+
+async fn replay_a(cfg: &Cfg, hist: &[Ev], ctx: Option<&Ctx>, classes: Option<&Classes>) -> EndA {
+    let shared = Arc::new(StubShared::default());
+    shared.desire.store(cfg.min as i32, Ordering::Relaxed);
+    let mut rig = Rig::new(*cfg, Stub(shared.clone()));
+    let mut b = Bounds { requested: i16::MIN, excused: i16::MIN };
+    let mut pending = false;
+    let mut terminal = false;
+    let mut applied = true;
+    let mut obs = String::new();
+    let dv = desire_values(cfg);
+    let qv = request_values(cfg);
+    let n = hist.len();
+    for (i, ev) in hist.iter().enumerate() {
+        let last = i + 1 == n;
+        let check = if last { ctx } else { None };
+        let cls = if last { classes } else { None };
+        let trace = || fmt_a(cfg, &hist[..=i]);
+        if terminal {
+            applied = false;
+            break;
+        }
+        match *ev {
+            Ev::D(j) => {
+                let Some(&d) = dv.get(j as usize) else {
+                    applied = false;
+                    break;
+                };
+                if shared.desire.load(Ordering::Relaxed) == d as i32 {
+                    applied = false;
+                    break;
+                }
+                shared.desire.store(d as i32, Ordering::Relaxed);
+                if d < cfg.min || d > cfg.max {
+                    bump(cls, "stub_desire_out_of_range_set", 1);
+                }
+            }
+            Ev::T => {
+                let d = shared.desire.load(Ordering::Relaxed) as i8;
+                match rig.timer().await {
+                    TimerOut::Sent { poll, timer, .. } => {
+                        if d < cfg.min {
+                            bump(cls, "polls_with_stub_desire_below_min", 1);
+                        }
+                        b.check_send(cfg, poll, timer, Some(d), check, cls, &trace);
+                        pending = true;
+                        if last {
+                            obs = format!("sent poll {poll} timer_ok {}", timer_ok(poll, timer));
+                        }
+                    }
+                    TimerOut::Reset | TimerOut::Demobilize => {
+                        terminal = true;
+                        bump(cls, "timer_terminal", 1);
+                        if last {
+                            obs = "terminal".into();
+                        }
+                    }
+                    TimerOut::Odd(s) => {
+                        terminal = true;
+                        if let Some(c) = check {
+                            c.violation("C10:send-without-single-timer", format!("handle_timer returned {s}"), trace());
+                        }
+                    }
+                }
+            }
+            a => {
+                if !(pending && rig.view().pending) {
+                    applied = false;
+                    break;
+                }
+                let req = rig.req.clone().expect("request");
+                let wire = match a {
+                    Ev::N => Some(rig::normal(&req, req.poll as u8, false)),
+                    Ev::Q(i) => match (req.ver, qv.get(i as usize)) {
+                        (5, Some(&q)) => Some(rig::normal(&req, q as u8, false)),
+                        _ => None,
+                    },
+                    // (an NTPv5 "poll own+1" at own = 126 would be 127 = DENY, not RATE)
+                    Ev::Rate => if req.ver == 5 && req.poll >= 126 { None } else { rig::kiss(&req, Kiss::Rate) },
+                    Ev::RateBig => {
+                        if req.ver == 5 && req.poll < 126 {
+                            rig::kiss(&req, Kiss::Rate).map(|mut w| {
+                                w.poll = 126;
+                                w
+                            })
+                        } else {
+                            None
+                        }
+                    }
+                    _ => unreachable!(),
+                };
+                let Some(wire) = wire else {
+                    applied = false;
+                    break;
+                };
+                let m0 = shared.measurements.load(Ordering::Relaxed);
+                let (acts, _) = rig.answer(&wire);
+                let m1 = shared.measurements.load(Ordering::Relaxed);
+                if req.ver == 5 {
+                    // the poll field of every valid NTPv5 answer is an interval the server asked for
+                    b.requested = b.requested.max(wire.poll as i8 as i16);
+                }
+                match a {
+                    Ev::N | Ev::Q(_) => {
+                        if m1 > m0 {
+                            pending = false;
+                            bump(cls, "normal_usable", 1);
+                            if matches!(a, Ev::Q(_)) {
+                                bump(cls, "v5_poll_requests", 1);
+                            }
+                        } else {
+                            bump(cls, "normal_refused", 1);
+                        }
+                    }
+                    _ => bump(cls, "rate_answers", 1),
+                }
+                if acts.demobilize + acts.reset > 0 {
+                    terminal = true;
+                }
+                if last {
+                    obs = format!("{acts:?} meas+{}", m1 - m0);
+                }
+            }
+        }
+    }
+    let mut view = rig.view();
+    view.tries = view.tries.min(3);
+    // Reach abstraction: `handle_timer` reads the register only through is_reachable() and
+    // unanswered_polls() = trailing_zeros; poll() shifts left and received_packet() sets bit
+    // 0, so the position of the lowest set bit alone decides every future action.
+    view.reach = if view.reach == 0 { 8 } else { view.reach.trailing_zeros() as u8 };
+    view.stratum = 0;
+    view.refid.clear();
+    EndA {
+        key: KeyA { view, desire: shared.desire.load(Ordering::Relaxed) as i8, requested: b.requested, excused: b.excused, pending, terminal },
+        applied,
+        obs,
+    }
+}
+
+#[derive(Clone, Default)]
+struct BfsOut {
+    states: u64,
+    transitions: u64,
+    depth: u64,
+    fixpoint: bool,
+}
+
+/// Level-parallel BFS over all part-A configurations at once (one barrier per depth).
+fn explore_all_a(ctx: &Ctx, cfgs: &[(Cfg, Vec<Ev>)], classes: &Classes) -> Vec<BfsOut> {
+    let mut outs = vec![BfsOut { states: 1, ..BfsOut::default() }; cfgs.len()];
+    let mut seen: HashSet<(usize, KeyA)> = HashSet::new();
+    let mut frontier: Vec<(usize, Vec<Ev>)> = Vec::new();
+    for (ci, (cfg, _)) in cfgs.iter().enumerate() {
+        let root = super::block_on_paused(replay_a(cfg, &[], None, None));
+        seen.insert((ci, root.key));
+        frontier.push((ci, vec![]));
+    }
+    let mut depth = 0u64;
+    while !frontier.is_empty() {
+        if ctx.over_budget() {
+            let mut open: Vec<usize> = frontier.iter().map(|f| f.0).collect();
+            open.dedup();
+            ctx.cap_hit(&format!(
+                "A: depth {} not started (budget); depth <= {} complete for every configuration; not yet at fixpoint: {}",
+                depth + 1,
+                depth,
+                open.iter().map(|i| cfgs[*i].0.tag()).collect::<Vec<_>>().join(" ")
+            ));
+            break;
+        }
+        let found: Mutex<Vec<(usize, Vec<Ev>, KeyA)>> = Mutex::new(Vec::new());
+        let stats: Mutex<Vec<u64>> = Mutex::new(vec![0; cfgs.len()]);
+        common::par_for(frontier.len() as u64, 8, |i| {
+            let (ci, base) = &frontier[i as usize];
+            let (cfg, events) = &cfgs[*ci];
+            let mut local = Vec::new();
+            let lc: Classes = Mutex::new(BTreeMap::new());
+            let mut t = 0u64;
+            rig::on_paused_rt(async {
+                for ev in events {
+                    let mut h = base.clone();
+                    h.push(*ev);
+                    let end = replay_a(cfg, &h, Some(ctx), Some(&lc)).await;
+                    if end.applied {
+                        t += 1;
+                        local.push((*ci, h, end.key));
+                    }
+                }
+            });
+            found.lock().unwrap().extend(local);
+            stats.lock().unwrap()[*ci] += t;
+            let mut g = classes.lock().unwrap();
+            for (k, v) in lc.into_inner().unwrap() {
+                *g.entry(k).or_insert(0) += v;
+            }
+        });
+        for (ci, t) in stats.into_inner().unwrap().into_iter().enumerate() {
+            outs[ci].transitions += t;
+        }
+        let mut found = found.into_inner().unwrap();
+        found.sort_by(|a, b| (a.0, &a.1).cmp(&(b.0, &b.1)));
+        let mut next = Vec::new();
+        depth += 1;
+        for (ci, h, k) in found {
+            let terminal = k.terminal;
+            if seen.insert((ci, k)) {
+                outs[ci].states += 1;
+                if !terminal {
+                    outs[ci].depth = depth;
+                    next.push((ci, h));
+                }
+            }
+        }
+        frontier = next;
+    }
+    for (ci, o) in outs.iter_mut().enumerate() {
+        o.fixpoint = !frontier.iter().any(|f| f.0 == ci);
+    }
+    ctx.distinct_many(seen.iter().map(|(ci, k)| common::hash_of(&("A", &cfgs[*ci].0, k))));
+    outs
+}
+
+// ---------------------------------------------------------------------- part B (real Kalman filter)
+
+#[derive(Clone, Default)]
+struct Clk;
+
+impl NtpClock for Clk {
+    type Error = std::io::Error;
+    fn now(&self) -> Result<NtpTimestamp, Self::Error> {
+        Ok(NtpTimestamp::default())
+    }
+    fn set_frequency(&self, _: f64) -> Result<NtpTimestamp, Self::Error> {
+        Ok(NtpTimestamp::default())
+    }
+    fn get_frequency(&self) -> Result<f64, Self::Error> {
+        Ok(0.0)
+    }
+    fn step_clock(&self, _: NtpDuration) -> Result<NtpTimestamp, Self::Error> {
+        Ok(NtpTimestamp::default())
+    }
+    fn disable_ntp_algorithm(&self) -> Result<(), Self::Error> {
+        Ok(())
+    }
+    fn error_estimate_update(&self, _: NtpDuration, _: NtpDuration) -> Result<(), Self::Error> {
+        Ok(())
+    }
+    fn status_update(&self, _: NtpLeapIndicator) -> Result<(), Self::Error> {
+        Ok(())
+    }
+}
+
+type Wrapper = TimeSyncControllerWrapper<KalmanClockController<Clk>>;
+type KalmanCtl = <Wrapper as TimeSyncController>::NtpSourceController;
+
+const ROUNDS: [char; 7] = ['A', 'K', 'J', 'W', 'U', 'R', 'Q'];
+const PREFIXES: [&str; 2] = ["AAAAAAAA", "AKAKAKAK"];
+
+fn fmt_b(cfg: &Cfg, hyst: i32, prefix: &str, word: &str) -> String {
+    format!("B;{};h{hyst};{prefix};{word}", cfg.tag())
+}
+
+struct EndB {
+    obs: String,
+    desires: Vec<i8>,
+}
+
+/// One history on the real filter. All steps are checked (a history is executed once).
+async fn run_b(cfg: &Cfg, hyst: i32, prefix: &str, word: &str, ctx: Option<&Ctx>, classes: Option<&Classes>) -> EndB {
+    let algo = AlgorithmConfig { poll_interval_hysteresis: hyst, ..AlgorithmConfig::default() };
+    let wrapper: Wrapper = TimeSyncController::new(Clk, SynchronizationConfig::default(), algo).expect("controller");
+    let ctl: KalmanCtl = wrapper.add_source(ClockId::new(), cfg.source_config());
+    let mut rig = Rig::new(*cfg, ctl);
+    let mut b = Bounds { requested: i16::MIN, excused: i16::MIN };
+    let mut desires = Vec::new();
+    let mut prev = rig.controller().desired_poll_interval().as_log();
+    let mut obs = String::new();
+    let mut wobble = 1i64;
+    let all: Vec<char> = prefix.chars().chain(word.chars()).collect();
+    let plen = prefix.len();
+    'outer: for (i, sym) in all.iter().enumerate() {
+        let trace = || {
+            let w: String = all[plen.min(i + 1)..(i + 1)].iter().collect();
+            let p: String = all[..plen.min(i + 1)].iter().collect();
+            fmt_b(cfg, hyst, &p, &w)
+        };
+        let check_desire = |rig: &Rig<KalmanCtl>, prev: &mut i8, desires: &mut Vec<i8>| {
+            let d = rig.controller().desired_poll_interval().as_log();
+            desires.push(d);
+            if d < cfg.min || d > cfg.max {
+                if let Some(c) = ctx {
+                    c.violation(
+                        "C10:filter-desire-out-of-limits",
+                        format!("clock filter desires poll exponent {d}, configured limits [{}, {}] (initial {})", cfg.min, cfg.max, cfg.init),
+                        trace(),
+                    );
+                }
+            }
+            if i >= plen {
+                if d > *prev {
+                    bump(classes, "filter_desire_up", 1);
+                } else if d < *prev {
+                    bump(classes, if d == cfg.min && *prev > cfg.min + 1 { "filter_desire_reset_to_min" } else { "filter_desire_down" }, 1);
+                }
+                if d == cfg.max && cfg.max > cfg.min {
+                    bump(classes, "filter_desire_at_max", 1);
+                }
+            }
+            *prev = d;
+        };
+        match rig.timer().await {
+            TimerOut::Sent { poll, timer, .. } => {
+                b.check_send(cfg, poll, timer, None, ctx, classes, &trace);
+                obs.push_str(&format!("{poll}"));
+            }
+            TimerOut::Reset | TimerOut::Demobilize => {
+                bump(classes, "timer_terminal", 1);
+                obs.push('!');
+                break 'outer;
+            }
+            TimerOut::Odd(s) => {
+                if let Some(c) = ctx {
+                    c.violation("C10:send-without-single-timer", format!("handle_timer returned {s}"), trace());
+                }
+                break 'outer;
+            }
+        }
+        check_desire(&rig, &mut prev, &mut desires);
+        let req = rig.req.clone().expect("request");
+        let wire = match sym {
+            'A' => Some(rig::normal(&req, req.poll as u8, false)),
+            'K' => {
+                wobble = -wobble;
+                let mut w = rig::normal(&req, req.poll as u8, false);
+                w.offset_ns = 3_000_000 * wobble;
+                Some(w)
+            }
+            'J' => {
+                let mut w = rig::normal(&req, req.poll as u8, false);
+                w.offset_ns = 80_000_000;
+                Some(w)
+            }
+            'W' => {
+                let mut w = rig::normal(&req, req.poll as u8, false);
+                w.delay_ns = 40_000_000;
+                Some(w)
+            }
+            'U' => None,
+            'R' => rig::kiss(&req, Kiss::Rate),
+            'Q' => {
+                if req.ver == 5 {
+                    Some(rig::normal(&req, (cfg.max + 2) as u8, false))
+                } else {
+                    // NTPv4 has no poll request: a plain normal answer
+                    Some(rig::normal(&req, req.poll as u8, false))
+                }
+            }
+            _ => None,
+        };
+        if let Some(w) = wire {
+            if req.ver == 5 {
+                b.requested = b.requested.max(w.poll as i8 as i16);
+            }
+            let (acts, _) = rig.answer(&w);
+            if !acts.is_empty() {
+                obs.push('?');
+            }
+            check_desire(&rig, &mut prev, &mut desires);
+        }
+        obs.push_str(&format!("/{} ", prev));
+    }
+    drop(rig);
+    drop(wrapper);
+    EndB { obs, desires }
+}
+
+fn words(k: usize, n: usize, alphabet: &[char]) -> impl Iterator<Item = String> + '_ {
+    common::product(k, n).map(move |w| w.iter().map(|i| alphabet[*i]).collect())
+}
+
+fn run_part_b(ctx: &Ctx, classes: &Classes) {
+    let quick = ctx.quick();
+    let n = if quick { 4 } else { 6 };
+    let hysts: &[i32] = if quick { &[1] } else { &[1, 2] };
+    let mut cfgs = Vec::new();
+    for &min in &GRID {
+        for &init in &GRID {
+            for &max in &GRID {
+                if min <= init && init <= max {
+                    cfgs.push(Cfg { nts: false, ver: Ver::V4, min, init, max });
+                    if !quick || (init == min || init == max) {
+                        cfgs.push(Cfg { nts: false, ver: Ver::V5, min, init, max });
+                    }
+                }
+            }
+        }
+    }
+    ctx.set("b_configs", cfgs.len() as u64);
+    let mut jobs: Vec<(Cfg, i32, &str, Vec<char>)> = Vec::new();
+    for cfg in &cfgs {
+        let alphabet: Vec<char> = ROUNDS.iter().copied().filter(|c| *c != 'Q' || cfg.ver == Ver::V5).collect();
+        for &h in hysts {
+            for p in PREFIXES {
+                jobs.push((*cfg, h, p, alphabet.clone()));
+            }
+        }
+    }
+    // flatten (job, word index)
+    let mut offsets = Vec::with_capacity(jobs.len() + 1);
+    let mut total = 0u64;
+    for j in &jobs {
+        offsets.push(total);
+        total += common::pow(j.3.len(), n);
+    }
+    offsets.push(total);
+    let obs_set: Mutex<HashSet<u64>> = Mutex::new(HashSet::new());
+    common::par_for(total, 64, |x| {
+        let ji = offsets.partition_point(|o| *o <= x) - 1;
+        let (cfg, h, p, alphabet) = &jobs[ji];
+        let w: String = common::word_of(x - offsets[ji], alphabet.len(), n).iter().map(|i| alphabet[*i]).collect();
+        let lc: Classes = Mutex::new(BTreeMap::new());
+        let end = match common::catch(|| rig::on_paused_rt(run_b(cfg, *h, p, &w, Some(ctx), Some(&lc)))) {
+            Ok(e) => e,
+            Err(e) => {
+                ctx.violation("C10:panic", format!("panic while driving the source / filter: {e}"), fmt_b(cfg, *h, p, &w));
+                return;
+            }
+        };
+        let moved = end.desires.windows(2).any(|d| d[0] != d[1]);
+        {
+            let mut g = classes.lock().unwrap();
+            for (k, v) in lc.into_inner().unwrap() {
+                *g.entry(k).or_insert(0) += v;
+            }
+            *g.entry("b_histories".into()).or_insert(0) += 1;
+            *g.entry("b_rounds".into()).or_insert(0) += (p.len() + n) as u64;
+            if moved {
+                *g.entry("b_histories_desire_moved".into()).or_insert(0) += 1;
+            }
+        }
+        if moved {
+            obs_set.lock().unwrap().insert(common::hash_of(&(cfg, h, p, &end.desires)));
+        }
+        if x % 50_021 == 11 {
+            ctx.sample(format!("{} -> poll/desire per round: {}", fmt_b(cfg, *h, p, &w), end.obs));
+        }
+    });
+    ctx.distinct_many(obs_set.into_inner().unwrap());
+    if !quick {
+        // the default hysteresis (16) needs long runs before the desire moves at all: a few
+        // long fixed words per configuration
+        let long_words = ["A".repeat(80), "AK".repeat(40), format!("{}{}", "A".repeat(40), "UW".repeat(20)), "AAAJ".repeat(20)];
+        let jobs2: Vec<(Cfg, String)> = cfgs.iter().flat_map(|c| long_words.iter().map(move |w| (*c, w.clone()))).collect();
+        common::par_for(jobs2.len() as u64, 1, |x| {
+            let (cfg, w) = &jobs2[x as usize];
+            let lc: Classes = Mutex::new(BTreeMap::new());
+            let end = super::block_on_paused(run_b(cfg, 16, PREFIXES[0], w, Some(ctx), Some(&lc)));
+            let mut g = classes.lock().unwrap();
+            for (k, v) in lc.into_inner().unwrap() {
+                *g.entry(format!("h16_{k}")).or_insert(0) += v;
+            }
+            *g.entry("b_histories".into()).or_insert(0) += 1;
+            *g.entry("b_rounds".into()).or_insert(0) += (8 + w.len()) as u64;
+            drop(g);
+            if x % 97 == 3 {
+                ctx.sample(format!("{} -> {}", fmt_b(cfg, 16, PREFIXES[0], w), end.obs));
+            }
+        });
+    }
+}
+
+// ---------------------------------------------------------------------- replay / check
+
+fn replay(ctx: &Ctx, trace: &str) -> String {
+    let parts: Vec<&str> = trace.split(';').collect();
+    match parts.first().copied() {
+        Some("A") if parts.len() >= 3 => {
+            let Some(cfg) = Cfg::parse(parts[1]) else { return "bad config".into() };
+            let evs: Option<Vec<Ev>> = if parts[2].trim().is_empty() { Some(vec![]) } else { parts[2].split(',').map(|s| Ev::parse(s.trim())).collect() };
+            let Some(evs) = evs else { return "bad events".into() };
+            let mut obs = String::new();
+            for n in 1..=evs.len() {
+                let end = super::block_on_paused(replay_a(&cfg, &evs[..n], Some(ctx), None));
+                obs = format!("{} applied={} key={:?}", end.obs, end.applied, end.key);
+            }
+            obs
+        }
+        Some("B") if parts.len() >= 5 => {
+            let Some(cfg) = Cfg::parse(parts[1]) else { return "bad config".into() };
+            let Some(h) = parts[2].strip_prefix('h').and_then(|x| x.parse::<i32>().ok()) else { return "bad hysteresis".into() };
+            let end = super::block_on_paused(run_b(&cfg, h, parts[3], parts[4], Some(ctx), None));
+            format!("{} desires={:?}", end.obs, end.desires)
+        }
+        _ => format!("unparsable trace {trace:?}"),
+    }
+}
+
+#[test]
+fn check() {
+    let ctx = Ctx::new("C10");
+    if let Some(t) = common::replay_trace() {
+        let a = replay(&ctx, &t);
+        let b = replay(&ctx, &t);
+        common::report_replay("C10", &a, &b, ctx.violation_count() > 0);
+        return;
+    }
+    ctx.rule(
+        "A: BFS to fixpoint over {T, N, Q(v5 poll request min-1|max|max+2|126|127), RATE, RATEBIG, D(stub desire min-1|min|mid|max|max+1|-128|127)} \
+         on the real NtpSource for every min<=max over {0,4,6,10,17} x {v4,v5} (thorough adds NTS and the widest symbols). \
+         B: real Kalman source controller (production wrapper), every min<=initial<=max over {0,4,6,10,17}, 2 initialisation prefixes of 8 answered polls \
+         then all words of length n (quick 4, thorough 6) over rounds {A,K,J,W,U,R,Q}, hysteresis 1 (thorough 1,2 + long words at default 16). \
+         Distinct & non-trivial = A: distinct (config, canonical source view with reach reduced to its lowest set bit, stub desire, largest request) states; \
+         B: distinct (config, hysteresis, prefix, sequence of filter desires) in which the desire moved.",
+    );
+    ctx.assume("the poll field of every valid NTPv5 answer (normal or RATE form) counts as 'an interval the server asked for'; a v4 RATE carries no number and never licenses exceeding max");
+    ctx.assume("stub desires above max are an environment the real filter cannot produce (sentence 3); polls caused by them are bounded by the stub's desire and counted, not reported");
+    ctx.assume("timers for exponents > 31 cannot be represented; only >= 1.01*2^31 s is demanded there; 1 ppb slack on the 1.05 edge (1.05 is not a binary fraction)");
+    ctx.assume("reach register abstracted to the position of its lowest set bit in the part-A key (sound for actions, see replay_a)");
+    let classes: Classes = Mutex::new(BTreeMap::new());
+    let quick = ctx.quick();
+    let mut all_fix = true;
+    let mut a_cfgs = Vec::new();
+    for &min in &GRID {
+        for &max in &GRID {
+            if min <= max {
+                a_cfgs.push(Cfg { nts: false, ver: Ver::V4, min, init: min, max });
+                a_cfgs.push(Cfg { nts: false, ver: Ver::V5, min, init: min, max });
+                if !quick && (max - min <= 6) {
+                    a_cfgs.push(Cfg { nts: true, ver: Ver::V5, min, init: min, max });
+                    a_cfgs.push(Cfg { nts: true, ver: Ver::V4, min, init: min, max });
+                }
+            }
+        }
+    }
+    // narrow configurations first: if the wall budget runs out it is the long ladders that
+    // are cut (and reported as caps), not the typical configurations
+    a_cfgs.sort_by_key(|c| (c.max - c.min, c.nts, c.ver, c.min));
+    ctx.set("a_configs", a_cfgs.len() as u64);
+    let a_jobs: Vec<(Cfg, Vec<Ev>)> = a_cfgs.iter().map(|c| (*c, alphabet_a(c, quick))).collect();
+    let outs = explore_all_a(&ctx, &a_jobs, &classes);
+    for ((cfg, _), r) in a_jobs.iter().zip(outs.iter()) {
+        ctx.add("states", r.states);
+        ctx.add("transitions", r.transitions);
+        ctx.add("evaluations", r.transitions);
+        ctx.max("max_depth", r.depth);
+        if !r.fixpoint {
+            all_fix = false;
+        }
+        let line = format!("{} states, {} transitions, depth {}, fixpoint {}", r.states, r.transitions, r.depth, r.fixpoint);
+        ctx.note(&format!("A_{}", cfg.tag()), &line);
+        if (cfg.min == 4 && cfg.max == 10) || (cfg.min == 0 && cfg.max == 17) || (cfg.min == 6 && cfg.max == 6) {
+            ctx.sample(format!("A {}: {line}", cfg.tag()));
+        }
+    }
+    ctx.set("a_wall_ms", (ctx.elapsed_s() * 1000.0) as u64);
+    run_part_b(&ctx, &classes);
+    let g = classes.lock().unwrap();
+    let rounds = *g.get("b_rounds").unwrap_or(&0);
+    ctx.add("transitions", rounds);
+    ctx.add("evaluations", *g.get("b_histories").unwrap_or(&0));
+    for (k, v) in g.iter() {
+        ctx.set(&format!("class_{k}"), *v);
+    }
+    drop(g);
+    ctx.exhaustive(all_fix);
+    ctx.finish();
+}
